@@ -38,7 +38,28 @@ theorem C03_finished_all_returned (P : Params K) (tree : Tree K V) (progs : List
       ∃ out, HEv.ret t i out ∈ history c :=
   finished_all_returned P tree progs ht ho hp hd hdel c hr hu
 
+/-- **C03 + C06, the capstone.** For programs that close their cursors: run ANY schedule until
+    nothing is enabled (that happens within `termBound` steps, `C06_every_execution_terminates`).
+    The history obtained is COMPLETE — every map operation of every program has been invoked and has
+    returned — and linearizable with respect to the map specification started from the initial
+    contents. No fairness assumption, no hypothesis on the run. -/
+theorem C03_every_maximal_run_complete_and_linearizable (lt : K → K → Bool) (P : Params K) (tree : Tree K V)
+    (progs : List (List (COp K V)))
+    (hkp : KParams lt P) (ht : TreeOk none tree) (hord : OrdTree lt tree) (hsep : SepTree lt tree)
+    (ho : tree.order = P.order) (hp : PadOk P) (hcl : Closing progs)
+    (hdel : 4 ≤ tree.order ∨ NoDelete progs)
+    (ts : List Nat) (c : Config K V) (hrun : (Config.init P tree progs).run ts = (c, none))
+    (hstuck : c.enabledSet = []) :
+    Lin.Linearizable lt tree.abs (history c) ∧
+    (∀ t p i cop op, progs[t]? = some p → p[i]? = some cop → opOf cop = some op →
+      ∃ out, HEv.ret t i out ∈ history c) := by
+  have hr : Reachable (Config.init P tree progs) c := reachable_of_run _ ts _ c Reachable.refl hrun
+  have hu := all_operations_return_closing P tree progs ht ho hp hcl hdel _ Reachable.refl ts c hrun hstuck
+  exact ⟨linearizable_full' lt P tree progs hkp ht hord hsep ho hp hcl.disciplined hdel c hr,
+    finished_all_returned P tree progs ht ho hp hcl.disciplined hdel c hr hu⟩
+
 end Gobptree.Conc
 
 #print axioms Gobptree.Conc.C03_contents_are_replay
 #print axioms Gobptree.Conc.C03_finished_all_returned
+#print axioms Gobptree.Conc.C03_every_maximal_run_complete_and_linearizable
